@@ -19,7 +19,7 @@ CHUNK = 32
 RULE = ('every (structure, dtype, provenance, copy operation) inside the bounds executed once; distinct = that tuple; '
         'non-trivial = interior rank>1 and a mode>1')
 ASSUMPTIONS = ['CPU only: to(device)/cpu() are exercised with the CPU device']
-PROV = ['leaf', 'ttsvd', 'ttsvd_trunc', 'slice', 't', 'conj', 'detach', 'round', 'sum']
+PROV = ['leaf', 'ttsvd', 'ttsvd_trunc', 'ttsvd_rmax', 'ttsvd_rmax_list', 'slice', 't', 'conj', 'detach', 'round', 'sum']
 OPS = ['saveload', 'clone', 'detach', 'to_f64', 'to_f32', 'to_c128', 'to_c64', 'cpu', 'numpy', 'to_none']
 _TMP = None
 
@@ -59,7 +59,7 @@ def cases(tier, seed):
             N = [PN[i] for i in range(d)]
             for R in space.ranks_binary(d):
                 for dt in ('f64', 'c128', 'f32'):
-                    for pv in ('leaf', 'ttsvd', 't', 'conj', 'round'):
+                    for pv in ('leaf', 'ttsvd', 'ttsvd_rmax', 'ttsvd_rmax_list', 't', 'conj', 'round'):
                         for op in OPS:
                             yield {'k': 'm', 'M': M, 'N': N, 'R': R, 'dt': dt, 'pv': pv, 'op': op, 's': salt}
 
@@ -90,6 +90,14 @@ def _provenance(c):
         if c['k'] == 't':
             return torchtt.TT(full, eps=eps), st
         return torchtt.TT(full, [(m, n) for m, n in zip(c['M'], c['N'])], eps=eps), st
+    if pv in ('ttsvd_rmax', 'ttsvd_rmax_list'):
+        # TT-SVD cut by the rank cap (binding wherever the structure has a rank > 1) rather than by eps; scalar and per-bond form
+        full = ref.contract(cx).to(ref.DT[dt])
+        d = len(c['N'])
+        rmax = 1 if pv == 'ttsvd_rmax' else [1] + [1 + (i % 2) for i in range(d - 1)] + [1]
+        if c['k'] == 't':
+            return torchtt.TT(full, eps=1e-12, rmax=rmax), st
+        return torchtt.TT(full, [(m, n) for m, n in zip(c['M'], c['N'])], eps=1e-12, rmax=rmax), st
     if pv == 't':
         return x.t(), st
     if pv == 'conj':
